@@ -1,4 +1,5 @@
 """C15 — indexing a run-length array equals indexing the dense array: correspondence of the implementation with the Coq models."""
+import vlib
 from harness import fam_rle, fam_rle2
 TRUSTED = fam_rle.TRUSTED
 ASSUME = ["integer values; float dtypes (NaN, -0.0) are covered by the bit-pattern instance in the thorough tier of the final framework"]
@@ -6,3 +7,7 @@ RULE = "case kinds: slice get; " + fam_rle.RULE
 def run(R, tier, rng):
     fam_rle2.run_c15(R, tier, rng)
     fam_rle.run_family(R, tier, rng, set("slice get".split()))
+
+
+def translator_tie():
+    return vlib.translator_tie(["rle"])
